@@ -238,6 +238,9 @@ Drift(e) ==
         THEN {<<l, "Read asked for a different number of bytes than io.ReadFull would">>} ELSE {})
     \cup (IF e.op = "NewMnemonic" /\ BigOK(e.n) /\ ReadFullOK /\ lastErr # "" /\ ~e.err.nil
         THEN {<<l, "failure although the final fragment completed the buffer">>} ELSE {})
+    \cup (IF e.op = "NewMnemonic" /\ Has(e, "errid") /\ pc = "reading" /\ ~ReadFullOK /\ lastErr # ""
+           /\ e.errid # (IF lastErr = "EOF" /\ Len(delivered) > 0 THEN "UEOF" ELSE lastErr)      \* io.ReadFull's rewriting of EOF
+        THEN {<<l, "a failed read surfaces as a different error than io.ReadFull would return">>} ELSE {})
     \cup (IF e.op = "Swap" /\ source # "os" /\ e.prev_is_os THEN {<<l, "previous source reported as os">>} ELSE {})
 
 ------------------------------------------------------------------------------
